@@ -138,3 +138,233 @@ pub fn abbreviate(v: &serde_json::Value) -> serde_json::Value {
 pub fn outcome_fail(sig: impl Into<String>, msg: impl Into<String>) -> Outcome {
     Outcome::fail(sig, msg)
 }
+
+// ------------------------------------------------------------------------------------
+// attribution of client packets on the wire to the operations that caused them
+
+#[derive(Clone, Debug, Default)]
+pub struct OpWire {
+    pub pid: Option<u16>,
+    pub sub_id: Option<u32>,
+    pub pkt_index: usize,
+    pub pubrel_index: Option<usize>,
+    /// number of PUBREL packets seen for this operation
+    pub pubrels: usize,
+}
+
+#[derive(Default)]
+pub struct Tracker {
+    seen: usize,
+    pub map: Vec<Option<OpWire>>,
+    /// acknowledgements the client wrote for inbound traffic: (type nibble, pid, pkt index)
+    pub client_acks: Vec<(u8, u16, usize)>,
+    /// packets that could not be attributed to any operation: (pkt index, description)
+    pub unattributed: Vec<(usize, String)>,
+    /// packets the strict decoder rejects: (pkt index, reason)
+    pub malformed: Vec<(usize, String)>,
+}
+
+impl Tracker {
+    pub fn new() -> Self {
+        Self::default()
+    }
+
+    /// Skip everything written so far (e.g. the CONNECT of the prologue).
+    pub fn skip_existing(&mut self, w: &mut World) {
+        w.sync_wire();
+        self.seen = w.pkts.len();
+    }
+
+    pub fn update(&mut self, w: &mut World) {
+        w.sync_wire();
+        while self.map.len() < w.ops.len() {
+            self.map.push(None);
+        }
+        // submission order = order of first poll
+        let mut order: Vec<usize> = (0..w.ops.len())
+            .filter(|i| w.ops[*i].first_polled_step.is_some())
+            .collect();
+        order.sort_by_key(|i| (w.ops[*i].first_polled_step.unwrap(), *i));
+        for k in self.seen..w.pkts.len() {
+            let pkt = match &w.pkts[k].decoded {
+                Ok(p) => p.clone(),
+                Err(e) => {
+                    self.malformed.push((k, format!("{}: {}", e.0, hex(&w.writer.0.borrow().data[w.pkts[k].start..w.pkts[k].end]))));
+                    continue;
+                }
+            };
+            let mut hit = None;
+            match &pkt {
+                rc::Packet::Publish(p) => {
+                    for &i in &order {
+                        if self.map[i].is_some() {
+                            continue;
+                        }
+                        if let OpSpec::Publish(s) = &w.ops[i].spec {
+                            if s.topic.as_deref() == Some(p.topic.as_str())
+                                && s.payload.clone().unwrap_or_default() == p.payload
+                                && s.qos.unwrap_or(0) == p.qos
+                            {
+                                hit = Some(i);
+                                break;
+                            }
+                        }
+                    }
+                    match hit {
+                        Some(i) => {
+                            self.map[i] = Some(OpWire {
+                                pid: p.pid,
+                                pkt_index: k,
+                                ..Default::default()
+                            })
+                        }
+                        None => self.unattributed.push((k, format!("{pkt:?}"))),
+                    }
+                }
+                rc::Packet::Subscribe(sp) => {
+                    for &i in &order {
+                        if self.map[i].is_some() {
+                            continue;
+                        }
+                        if let OpSpec::Subscribe(s) = &w.ops[i].spec {
+                            if s.filters.len() == sp.filters.len()
+                                && s.filters.iter().zip(sp.filters.iter()).all(|(a, b)| a.0 == b.0)
+                            {
+                                hit = Some(i);
+                                break;
+                            }
+                        }
+                    }
+                    match hit {
+                        Some(i) => {
+                            self.map[i] = Some(OpWire {
+                                pid: Some(sp.pid),
+                                sub_id: sp.sub_id,
+                                pkt_index: k,
+                                ..Default::default()
+                            })
+                        }
+                        None => self.unattributed.push((k, format!("{pkt:?}"))),
+                    }
+                }
+                rc::Packet::Unsubscribe(up) => {
+                    for &i in &order {
+                        if self.map[i].is_some() {
+                            continue;
+                        }
+                        if let OpSpec::Unsubscribe(s) = &w.ops[i].spec {
+                            if s.filters == up.filters {
+                                hit = Some(i);
+                                break;
+                            }
+                        }
+                    }
+                    match hit {
+                        Some(i) => {
+                            self.map[i] = Some(OpWire {
+                                pid: Some(up.pid),
+                                pkt_index: k,
+                                ..Default::default()
+                            })
+                        }
+                        None => self.unattributed.push((k, format!("{pkt:?}"))),
+                    }
+                }
+                rc::Packet::Pingreq | rc::Packet::Disconnect(_) => {
+                    let want_ping = matches!(pkt, rc::Packet::Pingreq);
+                    for &i in &order {
+                        if self.map[i].is_some() {
+                            continue;
+                        }
+                        let is = match &w.ops[i].spec {
+                            OpSpec::Ping => want_ping,
+                            OpSpec::Disconnect(_) => !want_ping,
+                            _ => false,
+                        };
+                        if is {
+                            hit = Some(i);
+                            break;
+                        }
+                    }
+                    match hit {
+                        Some(i) => {
+                            self.map[i] = Some(OpWire {
+                                pkt_index: k,
+                                ..Default::default()
+                            })
+                        }
+                        None => self.unattributed.push((k, format!("{pkt:?}"))),
+                    }
+                }
+                rc::Packet::Pubrel(a) => {
+                    let mut found = false;
+                    for i in 0..self.map.len() {
+                        if let Some(m) = self.map[i].as_mut() {
+                            if m.pid == Some(a.pid) && w.ops[i].spec.qos() == 2 {
+                                // the most recent operation using this identifier
+                                hit = Some(i);
+                            }
+                        }
+                    }
+                    if let Some(i) = hit {
+                        let m = self.map[i].as_mut().unwrap();
+                        m.pubrels += 1;
+                        if m.pubrel_index.is_none() {
+                            m.pubrel_index = Some(k);
+                        }
+                        found = true;
+                    }
+                    if !found {
+                        self.unattributed.push((k, format!("{pkt:?}")));
+                    }
+                }
+                rc::Packet::Puback(a) => self.client_acks.push((4, a.pid, k)),
+                rc::Packet::Pubrec(a) => self.client_acks.push((5, a.pid, k)),
+                rc::Packet::Pubcomp(a) => self.client_acks.push((7, a.pid, k)),
+                other => self.unattributed.push((k, format!("{other:?}"))),
+            }
+        }
+        self.seen = w.pkts.len();
+    }
+
+    pub fn pid(&self, op: usize) -> Option<u16> {
+        self.map.get(op).and_then(|m| m.as_ref()).and_then(|m| m.pid)
+    }
+    pub fn sub_id(&self, op: usize) -> Option<u32> {
+        self.map.get(op).and_then(|m| m.as_ref()).and_then(|m| m.sub_id)
+    }
+    pub fn on_wire(&self, op: usize) -> bool {
+        self.map.get(op).map(|m| m.is_some()).unwrap_or(false)
+    }
+}
+
+pub fn feed_packet(w: &mut World, p: &rc::Packet, form: &rc::Form) {
+    w.tick();
+    w.reader.feed(rc::encode(p, form));
+}
+
+/// A publish spec whose topic/payload carry a unique tag.
+pub fn tagged_publish(tag: usize, qos: u8) -> PublishSpec {
+    PublishSpec {
+        qos: Some(qos),
+        topic: Some(format!("t/{tag}")),
+        payload: Some(format!("p{tag}").into_bytes()),
+        ..Default::default()
+    }
+}
+
+pub fn tagged_subscribe(tag: usize, nfilters: usize) -> SubscribeSpec {
+    SubscribeSpec {
+        filters: (0..nfilters.max(1))
+            .map(|j| (format!("f/{tag}/{j}"), SubOptsSpec::default()))
+            .collect(),
+        user_props: vec![],
+    }
+}
+
+pub fn tagged_unsubscribe(tag: usize, nfilters: usize) -> UnsubscribeSpec {
+    UnsubscribeSpec {
+        filters: (0..nfilters.max(1)).map(|j| format!("u/{tag}/{j}")).collect(),
+        user_props: vec![],
+    }
+}
